@@ -22,6 +22,9 @@ const (
 
 type stagedProp interface {
 	CommitStaged()
+	DiscardStaged()
+	RollbackCommitted()
+	NotifyCommitted()
 }
 
 type StagedConfigProp interface {
@@ -60,11 +63,11 @@ func setPropsFromMapRecursive(val reflect.Value, updates map[string]any) (staged
 					if prop, ok := fieldAddr.Interface().(StagedConfigProp); ok {
 						valueBytes, err := json.Marshal(value)
 						if err != nil {
-							return nil, err
+							return stagedProps, err
 						}
 
 						if err := prop.UnmarshalJSONStaged(valueBytes); err != nil {
-							return nil, err
+							return stagedProps, err
 						}
 
 						stagedProps = append(stagedProps, prop)
@@ -75,10 +78,10 @@ func setPropsFromMapRecursive(val reflect.Value, updates map[string]any) (staged
 				// If the value is a map, it's a nested update
 				if nestedUpdates, ok := value.(map[string]any); ok {
 					nestedStaged, err := setPropsFromMapRecursive(fieldVal.Addr(), nestedUpdates)
-					if err != nil {
-						return nil, err
-					}
 					stagedProps = append(stagedProps, nestedStaged...)
+					if err != nil {
+						return stagedProps, err
+					}
 					break
 				}
 			}
@@ -105,9 +108,15 @@ func UpdatePartialFromConfig(cfg *Config, updates map[string]any) (UpdateStatus,
 	}
 
 	slog.Debug("Setting properties from JSON map...", "updates", updates)
+	// An update is all or nothing: values are staged, committed and checked, and only when the new
+	// configuration has been verified and written to disk are the listeners told about it. If any
+	// step fails, everything is put back as it was.
 	stagedProps, err := setPropsFromMapRecursive(reflect.ValueOf(cfg), updates)
 	if err != nil {
 		slog.Error("Failed to set properties from map", "error", err)
+		for _, prop := range stagedProps {
+			prop.DiscardStaged()
+		}
 		return UpdateStatusFailed, fmt.Errorf("%w: %v", ErrUpdateFailed, err)
 	}
 
@@ -117,14 +126,27 @@ func UpdatePartialFromConfig(cfg *Config, updates map[string]any) (UpdateStatus,
 		prop.CommitStaged()
 	}
 
+	rollback := func() {
+		// In reverse order, so that a property updated twice ends up with its original value
+		for i := len(stagedProps) - 1; i >= 0; i-- {
+			stagedProps[i].RollbackCommitted()
+		}
+	}
+
 	if err := cfg.verify(); err != nil {
 		slog.Error("Updated config failed verification", "error", err)
+		rollback()
 		return UpdateStatusFailed, fmt.Errorf("%w: %v", ErrUpdateFailed, err)
 	}
 
 	if err := cfg.persist(); err != nil {
 		slog.Error("Failed to persist updated config", "error", err)
+		rollback()
 		return UpdateStatusFailed, fmt.Errorf("%w: %v", ErrUpdateFailed, err)
+	}
+
+	for _, prop := range stagedProps {
+		prop.NotifyCommitted()
 	}
 
 	status := UpdateStatusSuccess
